@@ -96,9 +96,10 @@ struct RealmBase
 		if (_dtype == dt_set)
 		{
 			const T *rng(static_cast<const T*>(_range)), *res(std::lower_bound(rng, rng + _sz, what));
-			return res != rng + _sz ? res - rng : -1;
+			return res != rng + _sz && *res == what ? res - rng : -1; // lower_bound finds the first element not less: must be equal
 		}
-		return 0;
+		const T *rng(static_cast<const T*>(_range));
+		return what == *rng ? 0 : what == *(rng + 1) ? 1 : -1; // range: only the two bounds have descriptions
 	}
 
 	/*! Printer helper
